@@ -57,7 +57,7 @@ const TEXT: &[&str] = &["hello", "T", "AB", "BC", "ABC", "TT", "TXTPP#", "é", "
 const TERMS: &[&str] = &["\n", "\n", "\n", "\r\n", "\r", "", "\n\n", "\r\r\n"];
 const SHELLS: &[&str] = &["echo", "printf %s", "true", "false", "cat", "no-such-shell-xyz", "echo  -n", "printf %s\\n"];
 const INPUTS: &[&str] = &[".", "src.txt", "src.txt.txtpp", "", "missing", "sub", "a.txt", "./", ".//src.txt", "b.txt", "sub/c", "sub/c.txtpp", "src.txt/", "t.tmp"];
-const THREADS: &[usize] = &[0, 1, 1, 2, 3, 4, 8, 9, 16];
+const THREADS: &[usize] = &[1, 2, 1, 3, 4, 8, 9, 16, 0];
 
 fn arg(c: &mut Choices, risky: bool) -> String {
     if risky && c.chance(1, 8) {
@@ -144,7 +144,85 @@ fn gen_bytes(c: &mut Choices) -> Vec<u8> {
     b
 }
 
+/// (c) a well-formed generated project (tag-heavy, all directives), lightly damaged
+fn gen_mutated_project(c: &mut Choices) -> Case {
+    use crate::gen::project::{gen_project, GenParams};
+    let p = GenParams {
+        max_sources: 3,
+        max_items: 10,
+        error_rate: 40,
+        tag_boost: c.chance(1, 2),
+        abs_paths: false,
+        ..GenParams::default()
+    };
+    let project = gen_project(c, &p);
+    let mut files: BTreeMap<String, FileData> = project.files.clone();
+    let keys: Vec<String> = files.keys().cloned().collect();
+    let n_mut = c.below(4);
+    for _ in 0..n_mut {
+        if keys.is_empty() {
+            break;
+        }
+        let k = &keys[c.below(keys.len())];
+        let mut b = files[k].bytes().to_vec();
+        let lines: Vec<Vec<u8>> = b.split_inclusive(|x| *x == b'\n').map(|l| l.to_vec()).collect();
+        match c.below(6) {
+            0 if !lines.is_empty() => {
+                let i = c.below(lines.len());
+                b = lines.iter().enumerate().filter(|(j, _)| *j != i).flat_map(|(_, l)| l.clone()).collect();
+            }
+            1 if !lines.is_empty() => {
+                let i = c.below(lines.len());
+                let mut v = lines.clone();
+                v.insert(i, lines[c.below(lines.len())].clone());
+                b = v.concat();
+            }
+            2 if lines.len() > 1 => {
+                let mut v = lines.clone();
+                let i = c.below(v.len());
+                let j = c.below(v.len());
+                v.swap(i, j);
+                b = v.concat();
+            }
+            3 if !b.is_empty() => {
+                let i = c.below(b.len());
+                b[i] = *c.pick(&[0xffu8, b'\r', 0, b' ', b'\n', b'#', 0xc3]);
+            }
+            4 => {
+                let i = c.below(b.len() + 1);
+                let tok = c.pick(&["TXTPP#", "TXTPP#tag AB\n", "TXTPP#tag BC\n", "ABC", "-TXTPP#write x\n", "\r", "TXTPP#include src.txt\n", "-TXTPP#temp t.tmp\n"]);
+                b.splice(i..i, tok.bytes());
+            }
+            _ => {
+                if !b.is_empty() {
+                    b.truncate(c.below(b.len()));
+                }
+            }
+        }
+        files.insert(k.clone(), FileData::from_bytes(b));
+    }
+    if !files.contains_key("src.txt.txtpp") {
+        files.insert("src.txt.txtpp".into(), FileData::Text("plain\n".into()));
+    }
+    Case {
+        files,
+        dirs: project.dirs.iter().cloned().collect(),
+        opts: RunOpts {
+            mode: *c.pick(&[ModeS::Build, ModeS::Build, ModeS::Needed, ModeS::Verify, ModeS::Clean]),
+            trailing_newline: c.chance(1, 2),
+            threads: *c.pick(THREADS),
+            recursive: true,
+            inputs: vec![".".into()],
+            shell: c.pick(&["echo", "printf %s", "true", "cat"]).to_string(),
+        },
+        cli: false,
+    }
+}
+
 fn gen_case_with(c: &mut Choices, risky: bool) -> Case {
+    if c.chance(2, 5) {
+        return gen_mutated_project(c);
+    }
     let bytes_mode = c.chance(1, 4);
     let g = |c: &mut Choices| if bytes_mode { gen_bytes(c) } else { gen_text(c, risky) };
     let mut files = BTreeMap::new();
@@ -191,7 +269,12 @@ fn panic_site(panics: &[String]) -> String {
             let rest = &p[i + 12..];
             let site: String = rest.chars().take_while(|c| !c.is_whitespace() && *c != ',').collect();
             // strip the column and registry version noise
-            let site = site.trim_end_matches(':').to_string();
+            let mut site = site.trim_end_matches(':').to_string();
+            if let Some(i) = site.find("/registry/src/") {
+                // <registry>/<index>/<crate-version>/src/x.rs -> <crate-version>/src/x.rs
+                let rest = &site[i + 14..];
+                site = rest.splitn(2, '/').nth(1).unwrap_or(rest).to_string();
+            }
             let mut parts: Vec<&str> = site.rsplitn(3, ':').collect();
             parts.reverse();
             return parts.first().map(|f| format!("{}:{}", f, parts.get(1).unwrap_or(&""))).unwrap_or(site);
@@ -328,7 +411,7 @@ impl Prop for C18 {
         let out_dir = ctx.out.parent().map(|p| p.to_path_buf()).unwrap_or_default();
         let confined = ensure_confined(&[out_dir.as_path()]);
         ctx.stats.count(if confined { "confined_by_landlock" } else { "landlock_unavailable_risky_paths_not_generated" }, 1);
-        let total = if ctx.quick { 24_000 } else { 400_000 };
+        let total = if ctx.quick { 160_000 } else { 3_000_000 };
         let n = ctx.share(total);
         let gen = move |c: &mut Choices| gen_case_with(c, confined);
         ctx.drive(1, n, 400, &gen, &check, &reduce);
